@@ -52,9 +52,9 @@ struct Prog {
   std::function<std::string()> run;  // returns the canonical trace
 };
 
-static std::vector<Prog> programs() {
+static std::vector<Prog> programs(bool thorough) {
   std::vector<Prog> P;
-  for (int n : {1, 2, 3, 4, 5, 6, 8})
+  for (int n : thorough ? std::vector<int>{1, 2, 3, 4, 5, 6, 8} : std::vector<int>{1, 2, 3, 4, 5})
     for (int grain : {1, 2}) {
       std::string tag = "n=" + std::to_string(n) + ",g=" + std::to_string(grain);
       P.push_back({"for(auto) " + tag, [n, grain] {
@@ -138,7 +138,7 @@ static std::string setPath() {
 
 int main(int argc, char** argv) {
   Runner R("TBBCONF", argc, argv);
-  auto P = programs();
+  auto P = programs(R.a.thorough());
 #ifdef TBBCONF_MODEL
   // ---- enumerate every schedule of the model for W in {2,3} and C in {1,2,4,16}
   // (threads W, reported max_concurrency C).  W=2 is explored completely; W=3 within preemption bound 4.
@@ -149,11 +149,15 @@ int main(int argc, char** argv) {
     c.describe(p.name + " W=" + std::to_string(wc.first) + " C=" + std::to_string(wc.second));
     vx::Explorer ex;
     vx::Config cfg;
-    cfg.bound = wc.first == 2 ? 1000 : 4;  // W=2: no bound (complete); W=3: preemption bound 4
+    // W=2: no bound (complete) - except parallel_scan from 3 elements on, whose two-pass protocol has too many schedules
+    // (preemption bound 4 there); W=3: preemption bound 3
+    const bool scanBig = p.name.rfind("scan", 0) == 0 && p.name.find("n=1,") == std::string::npos && p.name.find("n=2,") == std::string::npos;
+    const bool completeSpace = wc.first == 2 && !scanBig;
+    cfg.bound = completeSpace ? 1000 : (wc.first == 2 ? 4 : 3);
     cfg.freeCost = 0;
     cfg.workers = wc.first;
     cfg.concurrency = wc.second;
-    cfg.maxExec = getenv("TBBCONF_MAXEXEC") ? atoll(getenv("TBBCONF_MAXEXEC")) : (R.a.thorough() ? 3000000 : 200000);
+    cfg.maxExec = getenv("TBBCONF_MAXEXEC") ? atoll(getenv("TBBCONF_MAXEXEC")) : (R.a.thorough() ? 3000000 : 600000);
     cfg.inProcess = true;
     cfg.timeout = 600;
     std::set<std::string> seen;
@@ -166,8 +170,8 @@ int main(int argc, char** argv) {
     c.count("distinct_traces", seen.size());
     if (st.capped) c.count("model_cases_cut_at_execution_cap");
     // a (program, concurrency) whose schedule space was enumerated completely: only then is a libtbb trace outside the set a miss of the model
-    if (!st.capped && wc.first == 2) c.emit("COMPLETE C=" + std::to_string(wc.second) + " " + p.name);
-    if (!st.capped && wc.first == 3) c.emit("BOUNDED C=" + std::to_string(wc.second) + " " + p.name);
+    if (!st.capped && completeSpace) c.emit("COMPLETE C=" + std::to_string(wc.second) + " " + p.name);
+    if (!st.capped && !completeSpace) c.emit("BOUNDED C=" + std::to_string(wc.second) + " " + p.name);
     c.distinct(hash_str(p.name + std::to_string(idx)));
     if (seen.size() > 1) c.nontrivial(hash_str(p.name + std::to_string(idx)));
     if (idx % 17 == 0) c.sample(p.name + ": " + std::to_string(st.executions) + " schedules, " + std::to_string(seen.size()) + " canonical traces");
